@@ -1103,6 +1103,68 @@ def rule_r22(prog, res):
     res.floor('R22', 'fraction groups evaluated', n, 2)
 
 
+# ------------------------------------------------------------------ R23
+def rule_r23(prog, res):
+    res.rule('R23', 'the date-time writer and reader consult the same format '
+             'aliases (dt_format, out_format, format), and the url-safe '
+             'base64 reader decodes with the url-safe alphabet in its order')
+    pm = prog.cls('spyne.protocol._base:ProtocolMixin')
+    ib = prog.cls('spyne.protocol._inbase:InProtocolBase')
+    w = pm.methods.get('_get_datetime_format')
+    r = ib.methods.get('_datetime_from_unicode')
+    if w is None or r is None:
+        raise AnalysisError('_get_datetime_format/_datetime_from_unicode',
+                            'not found')
+    need = {'dt_format', 'out_format', 'format'}
+
+    def aliases(f):
+        return {a.attr for a in walk_no_defs(f.node)
+                if isinstance(a, ast.Attribute) and a.attr.endswith('format')
+                and unparse(a.value) == 'cls_attrs'}
+    for f, what in ((w, 'writer'), (r, 'reader')):
+        got = aliases(f)
+        miss = sorted(need - got)
+        res.ob('R23', f.where, 'the date-time %s consults %s' % (
+            what, sorted(got)), 'VIOLATED' if miss else 'ok')
+        if miss:
+            res.finding('R23', '%s|format-alias|%s' % (f.qualname,
+                                                       ','.join(miss)),
+                        f.where, 'the %s no longer consults %s while its '
+                        'sibling does: DateTime(%s="%%d.%%m.%%Y") is written '
+                        'one way and read the other, so the text Spyne wrote '
+                        'does not read back' % (what, miss, miss[0]))
+    b = prog.cls('spyne.model.binary:ByteArray')
+    f = b.methods.get('from_urlsafe_base64')
+    if f is None:
+        raise AnalysisError('ByteArray.from_urlsafe_base64', 'not found')
+    n = 0
+    for c in calls_in(f.node):
+        nm = call_name(c)
+        if nm == 'urlsafe_b64decode':
+            n += 1
+            res.ob('R23', '%s:%d' % (f.module.relpath, c.lineno),
+                   'from_urlsafe_base64 decodes with urlsafe_b64decode', 'ok')
+        elif nm == 'b64decode':
+            n += 1
+            alt = [k.value for k in c.keywords if k.arg == 'altchars'] + \
+                list(c.args[1:2])
+            ok = bool(alt) and isinstance(alt[0], ast.Constant) and \
+                alt[0].value in (b'-_', '-_')
+            where = '%s:%d' % (f.module.relpath, c.lineno)
+            res.ob('R23', where, 'from_urlsafe_base64 decodes with altchars '
+                   '%s' % (unparse(alt[0]) if alt else 'none'),
+                   'ok' if ok else 'VIOLATED')
+            if not ok:
+                res.finding('R23', 'ByteArray.from_urlsafe_base64|altchars',
+                            where, 'the url-safe reader decodes with altchars '
+                            '%s: "-" stands for 62 and "_" for 63 (b"-_"); '
+                            'in the other order the two 6-bit groups are '
+                            'swapped and text containing them is read as '
+                            'other bytes' % (unparse(alt[0]) if alt else
+                                             'missing'))
+    res.floor('R23', 'decoder calls in from_urlsafe_base64', n, 1)
+
+
 def run(prog, res, tier):
     res.run_rule(rule_r1, prog, res)
     res.run_rule(rule_r2_r7, prog, res, tier)
@@ -1125,6 +1187,7 @@ def run(prog, res, tier):
     res.run_rule(rule_r20, prog, res)
     res.run_rule(rule_r21, prog, res)
     res.run_rule(rule_r22, prog, res)
+    res.run_rule(rule_r23, prog, res)
 
 
 _I = 'spyne/protocol/_inbase.py'
@@ -1133,6 +1196,18 @@ _B = 'spyne/model/binary.py'
 _S = 'spyne/protocol/soap/soap11.py'
 
 MUTANTS = [
+    Mutant('writer-ignores-format-alias', 'R23', 'fire',
+           'spyne/protocol/_base.py',
+           in_func('ProtocolMixin._get_datetime_format',
+                   "        if dt_format is None:\n"
+                   "            dt_format = cls_attrs.format\n", ""),
+           'format-alias'),
+    Mutant('urlsafe-altchars-swapped', 'R23', 'fire', _B,
+           in_func('ByteArray.from_urlsafe_base64',
+                   r"            if isinstance\(value, \(list, tuple\)\):\n"
+                   r"(.*?)return \(urlsafe_b64decode\(value\),\)\n",
+                   "            return (b64decode(_bytes_join(value), "
+                   "altchars=b'_-'),)\n", regex=True), 'altchars'),
     Mutant('duration-fraction-capped', 'R22', 'fire',
            'spyne/protocol/_inbase.py',
            in_func(None, r"(?P<seconds>\d+(\.\d+)?)S",
